@@ -62,16 +62,38 @@ Lemma count_logs_exc l : count is_exc (map (C04.log_frame []) l) = 0%nat.
 Proof. unfold count. induction l as [|x l IH]; cbn [map filter]; [reflexivity|]. exact IH. Qed.
 Lemma count_app {A} (p : A -> bool) a b : count p (a ++ b) = (count p a + count p b)%nat.
 Proof. unfold count. now rewrite filter_app, app_length. Qed.
+Lemma lits_user (l : kvlist) : lits (map (fun kv => VLit (snd kv)) l) = true.
+Proof. unfold lits. induction l as [|x l IH]; cbn [map forallb is_tok negb andb]; [reflexivity|exact IH]. Qed.
 
-Lemma turn_ok_shape t x : act_ok (t_act t) = true ->
-  exists fs uc, turn t x = TROk fs uc /\ count is_data fs = 1%nat /\ count is_exc fs = 0%nat.
+Ltac counts := rewrite ?count_app, ?count_logs_data, ?count_logs_exc.
+
+Lemma turn_ok_shape prod t x : act_ok (t_act t) = true ->
+  exists fs uc, turn prod t x = TROk fs uc /\ count is_data fs = 1%nat /\ count is_exc fs = 0%nat /\ lits uc = true.
 Proof.
   unfold turn. destruct (t_act t); cbn [act_ok]; intro H; try discriminate; eexists; eexists; (split; [reflexivity|]);
-    rewrite !count_app, count_logs_data, count_logs_exc; split; reflexivity.
+    counts; (split; [reflexivity|]); (split; [reflexivity|]); apply lits_user.
 Qed.
-Lemma turn_err_shape t x : act_ok (t_act t) = false -> exists ty msg, turn t x = TRErr (FExc ty msg [] []).
+Lemma turn_err_shape t x : act_ok (t_act t) = false -> exists ty msg, turn false t x = TRErr (FExc ty msg [] []).
 Proof.
   unfold turn, exc. destruct (t_act t); cbn [act_ok]; intro H; try discriminate; eexists; eexists; reflexivity.
+Qed.
+(* the batches of a validated turn, in order: logs raised before the Emit, THE data batch, logs raised after it *)
+Lemma turn_ok_order prod t x : act_ok (t_act t) = true ->
+  exists d uc, is_data d = true
+    /\ turn prod t x = TROk (map (C04.log_frame []) (t_logs t) ++ [d] ++ map (C04.log_frame []) (t_late t)) uc.
+Proof.
+  unfold turn. destruct (t_act t); cbn [act_ok]; intro H; try discriminate; eexists; eexists; (split; [|reflexivity]); reflexivity.
+Qed.
+Lemma turn_prod_shape t :
+  match turn true t 0 with
+  | TROk fs uc => act_ok (t_act t) = true /\ count is_data fs = 1%nat /\ count is_exc fs = 0%nat /\ lits uc = true
+  | TRFin fs uc => act_ok (t_act t) = false /\ act_fin (t_act t) = true /\ count is_exc fs = 0%nat
+                   /\ (count is_data fs <= 1)%nat /\ lits uc = true
+  | TRErr e => act_ok (t_act t) = false /\ act_fin (t_act t) = false /\ exists ty msg, e = FExc ty msg [] []
+  end.
+Proof.
+  unfold turn, exc. destruct (t_act t); cbn [act_ok act_fin]; counts;
+    repeat (split; try reflexivity; try apply lits_user); try (eexists; eexists; reflexivity); cbn; lia.
 Qed.
 
 Lemma cursor_on_data_curs_of fs uc fresh : cursor_on_data fs (curs_of fs uc fresh) fresh = true.
@@ -79,6 +101,11 @@ Proof.
   unfold curs_of. induction fs as [|f fs IH]; cbn [map cursor_on_data]; [reflexivity|].
   rewrite IH, Bool.andb_true_r. destruct (is_data f); [|reflexivity].
   rewrite last_last, mval_eqb_refl. now destruct uc.
+Qed.
+Lemma bare_curs_prod fs uc : lits uc = true -> bare fs (curs_prod fs uc) = true.
+Proof.
+  intro L. unfold curs_prod. induction fs as [|f fs IH]; cbn [map bare]; [reflexivity|].
+  rewrite IH, Bool.andb_true_r. now destruct (is_data f).
 Qed.
 
 (* ---- one request meets the decidable property ---------------------------------- *)
@@ -89,60 +116,74 @@ Proof.
   - rewrite (no_token_strip m T). destruct (t_peek t); [rewrite no_fw_key_strip, (no_token_strip m T)|]; reflexivity.
   - destruct (t_peek t); [rewrite no_fw_key_strip|]; reflexivity.
 Qed.
+Lemma handler_view_seen_prod m : handler_view_ok m (seen_prod (strip m)) = true.
+Proof.
+  unfold handler_view_ok, seen_prod; cbn [sn_meta sn_batch sn_leak]. rewrite rmeta_eqb_refl.
+  destruct (tokens_proper m) eqn:T; [rewrite (no_token_strip m T)|]; reflexivity.
+Qed.
 
 Lemma tr_eqb_refl a : tr_eqb a a = true.
 Proof. destruct a; cbn [tr_eqb]; rewrite ?N.eqb_refl, ?Z.eqb_refl, ?beqb_refl; reflexivity. Qed.
 
 Ltac proj := cbn [r_status r_errhdr r_schema r_frames r_curs r_first r_hascall r_pos r_seen r_trace r_strip fst snd].
 
+Lemma gate_expect i known o :
+  match gate i known o with VAccept p => expect i known o = Some p | VRefuse _ => expect i known o = None end.
+Proof.
+  unfold gate, expect.
+  destruct (i_prod i), (cancelled o), (is_tick (o_body o)); cbn [negb andb orb];
+    destruct (get_first c16_meta_stream_state (o_meta o)) as [v|]; try reflexivity;
+    destruct (presented known v); try reflexivity;
+    destruct (i_cache i), (call_ok (get_first c16_meta_call_state (o_meta o))); reflexivity.
+Qed.
+
+Lemma is_nil_snoc {A} (l : list A) x : is_nil (l ++ [x]) = false.
+Proof. now destruct l. Qed.
+
+(* one Produce cycle as written by the producer route *)
+Lemma produce_spec i minted p sn pre wc st :
+  let r := fst (produce_resp i minted p sn pre wc st) in
+  spec_produce (turn_at i p) (VCur (length minted)) p r = true
+  /\ learn minted r = snd (produce_resp i minted p sn pre wc st)
+  /\ r_trace r = pre ++ [TProd p] /\ r_seen r = Some sn /\ r_strip r = st
+  /\ r_hascall r = wc && act_ok (t_act (turn_at i p)).
+Proof.
+  unfold produce_resp, spec_produce. pose proof (turn_prod_shape (turn_at i p)) as S.
+  destruct (turn true (turn_at i p) 0) as [fs uc|fs uc|e]; proj.
+  - destruct S as (A & D & X & L). rewrite A. rewrite !removelast_last, !last_last, !is_nil_snoc, D, X, (bare_curs_prod fs uc L).
+    cbn [list_eqb mval_eqb opt_eqb negb andb Nat.eqb]. rewrite Nat.eqb_refl, N.eqb_refl, ?Bool.andb_true_r.
+    repeat split; reflexivity.
+  - destruct S as (A & F & X & D & L). rewrite A, F, X, (bare_curs_prod fs uc L).
+    replace (Nat.leb (count is_data fs) 1) with true by (symmetry; apply Nat.leb_le; exact D).
+    rewrite ?Bool.andb_false_r. repeat split; reflexivity.
+  - destruct S as (A & F & ty & msg & ->). rewrite A, F, ?Bool.andb_false_r. repeat split; reflexivity.
+Qed.
+
 Lemma step_ok i known o :
   spec_step i known o (fst (handle false i known o)) = true
   /\ learn known (fst (handle false i known o)) = snd (handle false i known o).
 Proof.
-  unfold handle, gate, spec_step.
-  destruct (cancelled o) eqn:C; cbn [negb andb orb].
-  - (* cancel continuation *)
-    destruct (get_first c16_meta_stream_state (o_meta o)) as [v|] eqn:G.
-    2:{ proj. unfold refuse; proj. rewrite rmeta_eqb_refl. split; reflexivity. }
-    destruct (presented known v) as [p|] eqn:P.
-    2:{ proj. unfold refuse; proj. rewrite rmeta_eqb_refl. split; reflexivity. }
-    destruct (i_cache i); cbn [negb andb orb].
-    + proj. rewrite rmeta_eqb_refl. split; [|reflexivity]. cbn [negb andb]. unfold no_cursor; proj.
+  unfold handle, spec_step. pose proof (gate_expect i known o) as GE.
+  destruct (gate i known o) as [e|p]; rewrite GE.
+  - proj. unfold refuse; proj. rewrite rmeta_eqb_refl. split; reflexivity.
+  - destruct (cancelled o) eqn:C.
+    + proj. rewrite rmeta_eqb_refl. split; [|reflexivity]. cbn [negb andb is_nil]. unfold no_cursor; proj.
       destruct (has_canceller (i_cancel i)); cbn [list_eqb tr_eqb]; rewrite ?N.eqb_refl; reflexivity.
-    + destruct (call_ok (get_first c16_meta_call_state (o_meta o))); cbn [negb andb orb].
-      * proj. rewrite rmeta_eqb_refl. split; [|reflexivity]. cbn [negb andb]. unfold no_cursor; proj.
-        destruct (has_canceller (i_cancel i)); cbn [list_eqb tr_eqb]; rewrite ?N.eqb_refl; reflexivity.
-      * proj. unfold refuse; proj. rewrite rmeta_eqb_refl. split; reflexivity.
-  - destruct (is_tick (o_body o)) eqn:K; cbn [negb andb orb].
-    { (* a tick body on a data route: refused by the cast, whatever the tokens *)
-      proj. unfold refuse; proj. rewrite rmeta_eqb_refl. split; [|reflexivity].
-      destruct (get_first c16_meta_stream_state (o_meta o)) as [v|]; [destruct (presented known v)|]; try reflexivity.
-      now rewrite Bool.andb_false_r. }
-    destruct (get_first c16_meta_stream_state (o_meta o)) as [v|] eqn:G.
-    2:{ proj. unfold refuse; proj. rewrite rmeta_eqb_refl. split; reflexivity. }
-    destruct (presented known v) as [p|] eqn:P.
-    2:{ proj. unfold refuse; proj. rewrite rmeta_eqb_refl. split; reflexivity. }
-    assert (TURN : forall (ok : i_cache i || call_ok (get_first c16_meta_call_state (o_meta o)) = true),
-      spec_step i known o (fst (handle false i known o)) = true
-      /\ learn known (fst (handle false i known o)) = snd (handle false i known o)).
-    { intro ok. unfold handle, gate, spec_step. rewrite C, K, G, P; cbn [negb andb orb].
-      replace (negb (i_cache i) && negb (call_ok (get_first c16_meta_call_state (o_meta o)))) with false
-        by (destruct (i_cache i), (call_ok (get_first c16_meta_call_state (o_meta o))); cbn in *; congruence).
-      rewrite ok; cbn [andb].
-      destruct (act_ok (t_act (turn_at i p))) eqn:A.
-      - destruct (turn_ok_shape (turn_at i p) (insum (o_body o)) A) as (fs & uc & E & D & X).
-        rewrite E. proj. rewrite rmeta_eqb_refl, handler_view_seen_of, D, X, cursor_on_data_curs_of.
-        cbn [negb andb list_eqb tr_eqb opt_eqb Nat.eqb]. rewrite ?N.eqb_refl, ?Z.eqb_refl. split; reflexivity.
-      - destruct (turn_err_shape (turn_at i p) (insum (o_body o)) A) as (ty & msg & E).
-        rewrite E. proj. rewrite rmeta_eqb_refl, handler_view_seen_of.
-        cbn [negb andb list_eqb tr_eqb]. rewrite ?N.eqb_refl, ?Z.eqb_refl. split; reflexivity. }
-    destruct (i_cache i) eqn:CA; cbn [negb andb orb].
-    + fold (cancelled o). specialize (TURN eq_refl). unfold handle, gate, spec_step in TURN.
-      rewrite C, K, G, P, CA in TURN. cbn [negb andb orb] in TURN. exact TURN.
-    + destruct (call_ok (get_first c16_meta_call_state (o_meta o))) eqn:CK; cbn [negb andb orb].
-      * specialize (TURN eq_refl). unfold handle, gate, spec_step in TURN.
-        rewrite C, K, G, P, CA, CK in TURN. cbn [negb andb orb] in TURN. exact TURN.
-      * proj. unfold refuse; proj. rewrite rmeta_eqb_refl. split; reflexivity.
+    + destruct (i_prod i) eqn:PR.
+      * destruct (produce_spec i known p (seen_prod (strip (o_meta o))) [] false (strip (o_meta o))) as (SP & L & T & SN & ST & HC).
+        destruct (produce_resp i known p (seen_prod (strip (o_meta o))) [] false (strip (o_meta o))) as [r m'].
+        cbn [fst snd] in *. rewrite ST, HC, SN, T, SP, rmeta_eqb_refl, handler_view_seen_prod.
+        assert (Z.eqb (r_status r) 200 = true) as ->.
+        { unfold spec_produce in SP. apply Bool.andb_true_iff in SP. destruct SP as [SP _].
+          apply Bool.andb_true_iff in SP. now destruct SP. }
+        cbn [app list_eqb tr_eqb negb andb]. rewrite N.eqb_refl. split; [reflexivity|exact L].
+      * destruct (act_ok (t_act (turn_at i p))) eqn:A.
+        -- destruct (turn_ok_shape false (turn_at i p) (insum (o_body o)) A) as (fs & uc & E & D & X & _).
+           rewrite E. proj. rewrite rmeta_eqb_refl, handler_view_seen_of, D, X, cursor_on_data_curs_of.
+           cbn [negb andb list_eqb tr_eqb opt_eqb Nat.eqb]. rewrite ?N.eqb_refl, ?Z.eqb_refl. split; reflexivity.
+        -- destruct (turn_err_shape (turn_at i p) (insum (o_body o)) A) as (ty & msg & E).
+           rewrite E. proj. rewrite rmeta_eqb_refl, handler_view_seen_of.
+           cbn [negb andb list_eqb tr_eqb]. rewrite ?N.eqb_refl, ?Z.eqb_refl. split; reflexivity.
 Qed.
 
 Lemma run_ok i ops : forall known, spec_run i known ops (run false i known ops) = true.
@@ -154,13 +195,20 @@ Qed.
 
 Lemma model_meets_spec i : spec_ok i (model i) = true.
 Proof.
-  unfold model, model_gen, spec_ok. replace (spec_init init_resp) with true by reflexivity.
-  replace (learn [] init_resp) with [0] by reflexivity. cbn [andb]. apply run_ok.
+  unfold model, model_gen, spec_ok. destruct (i_prod i) eqn:PR.
+  - unfold init_prod.
+    destruct (produce_spec i [] 0 (seen_prod init_meta) [TInit] true []) as (SP & L & T & SN & _ & HC).
+    destruct (produce_resp i [] 0 (seen_prod init_meta) [TInit] true []) as [r0 m0]. cbn [fst snd] in *.
+    unfold spec_init_prod. cbn [length] in SP. rewrite T, SN, HC, SP, L.
+    cbn [app list_eqb tr_eqb seen_prod sn_meta sn_batch sn_leak is_none negb andb].
+    rewrite N.eqb_refl, rmeta_eqb_refl, Bool.eqb_reflx. cbn [andb]. apply run_ok.
+  - replace (spec_init init_resp) with true by reflexivity.
+    replace (learn [] init_resp) with [0] by reflexivity. cbn [andb]. apply run_ok.
 Qed.
 
 (* ---- readable one-request theorems, for ANY set of cursors minted so far --------- *)
 Lemma ok_turn leaks i minted o p :
-  gate i minted o = VAccept p -> cancelled o = false -> act_ok (t_act (turn_at i p)) = true ->
+  gate i minted o = VAccept p -> cancelled o = false -> i_prod i = false -> act_ok (t_act (turn_at i p)) = true ->
   let r := fst (handle leaks i minted o) in
   let minted' := snd (handle leaks i minted o) in
   r_status r = 200%Z /\ r_errhdr r = false
@@ -170,23 +218,39 @@ Lemma ok_turn leaks i minted o p :
   /\ minted' = minted ++ [p + 1] /\ nth_error minted' (length minted) = Some (p + 1) /\ r_pos r = Some (p + 1)
   /\ r_trace r = [TEx p (insum (o_body o))].
 Proof.
-  intros A C K. unfold handle. rewrite A, C.
-  destruct (turn_ok_shape (turn_at i p) (insum (o_body o)) K) as (fs & uc & E & D & X). rewrite E. proj.
+  intros A C PR K. unfold handle. rewrite A, C, PR.
+  destruct (turn_ok_shape false (turn_at i p) (insum (o_body o)) K) as (fs & uc & E & D & X & _). rewrite E. proj.
   repeat split; try assumption; try reflexivity.
   - apply cursor_on_data_curs_of.
   - apply nth_error_None. lia.
   - rewrite nth_error_app2 by lia. now rewrite Nat.sub_diag.
 Qed.
 
+(* the order of the batches of a validated exchange turn, and where the cursor is: logs raised before
+   the Emit, the data batch with the cursor, logs raised after the Emit without one *)
+Lemma ok_turn_order leaks i minted o p :
+  gate i minted o = VAccept p -> cancelled o = false -> i_prod i = false -> act_ok (t_act (turn_at i p)) = true ->
+  let r := fst (handle leaks i minted o) in
+  let t := turn_at i p in
+  exists d uc, is_data d = true
+    /\ r_frames r = map (C04.log_frame []) (t_logs t) ++ [d] ++ map (C04.log_frame []) (t_late t)
+    /\ r_curs r = map (fun _ => []) (t_logs t) ++ [uc ++ [VCur (length minted)]] ++ map (fun _ => []) (t_late t).
+Proof.
+  intros A C PR K. unfold handle. rewrite A, C, PR.
+  destruct (turn_ok_order false (turn_at i p) (insum (o_body o)) K) as (d & uc & D & E). rewrite E. proj.
+  exists d, uc. split; [exact D|]. split; [reflexivity|].
+  unfold curs_of. rewrite !map_app, !map_map. cbn [map]. rewrite D. reflexivity.
+Qed.
+
 Lemma failed_turn leaks i minted o p :
-  gate i minted o = VAccept p -> cancelled o = false -> act_ok (t_act (turn_at i p)) = false ->
+  gate i minted o = VAccept p -> cancelled o = false -> i_prod i = false -> act_ok (t_act (turn_at i p)) = false ->
   let r := fst (handle leaks i minted o) in
   r_status r = 200%Z /\ r_errhdr r = true
   /\ (exists ty msg, r_frames r = [FExc ty msg [] []])
   /\ no_cursor r = true /\ snd (handle leaks i minted o) = minted
   /\ r_trace r = [TEx p (insum (o_body o))].
 Proof.
-  intros A C K. unfold handle. rewrite A, C.
+  intros A C PR K. unfold handle. rewrite A, C, PR.
   destruct (turn_err_shape (turn_at i p) (insum (o_body o)) K) as (ty & msg & E). rewrite E. proj.
   repeat split; try reflexivity. now exists ty, msg.
 Qed.
@@ -207,17 +271,37 @@ Lemma refused_turn leaks i minted o e :
   /\ snd (handle leaks i minted o) = minted.
 Proof. intro A. unfold handle. rewrite A. proj. repeat split; reflexivity. Qed.
 
+(* a producer continuation (batch limit 1): exactly one Produce at the presented position; the turn's
+   batches carry no token, a validated turn is followed by one zero-row batch with exactly the fresh cursor *)
+Lemma producer_turn leaks i minted o p :
+  gate i minted o = VAccept p -> cancelled o = false -> i_prod i = true ->
+  let r := fst (handle leaks i minted o) in
+  spec_produce (turn_at i p) (VCur (length minted)) p r = true
+  /\ r_trace r = [TProd p]
+  /\ r_seen r = Some (seen_prod (filter (fun kv => negb (is_fw (fst kv))) (o_meta o)))
+  /\ learn minted r = snd (handle leaks i minted o).
+Proof.
+  intros A C PR. unfold handle. rewrite A, C, PR.
+  destruct (produce_spec i minted p (seen_prod (strip (o_meta o))) [] false (strip (o_meta o))) as (SP & L & T & SN & _ & _).
+  repeat split; assumption.
+Qed.
+
 Lemma handler_meta leaks i minted o p :
-  gate i minted o = VAccept p -> cancelled o = false ->
+  gate i minted o = VAccept p -> cancelled o = false -> i_prod i = false ->
   exists s, r_seen (fst (handle leaks i minted o)) = Some s
     /\ sn_meta s = filter (fun kv => negb (is_fw (fst kv))) (o_meta o)
     /\ sn_leak s = false
     /\ (leaks = false -> forall b, sn_batch s = Some b -> b = sn_meta s).
 Proof.
-  intros A C. unfold handle. rewrite A, C.
-  destruct (turn (turn_at i p) (insum (o_body o))); proj; eexists; (split; [reflexivity|]);
-    unfold seen_of; cbn [sn_meta sn_batch sn_leak]; (split; [reflexivity|]); (split; [reflexivity|]);
-    intros ->; destruct (t_peek (turn_at i p)); intros b H; now inversion H.
+  intros A C PR. unfold handle. rewrite A, C, PR.
+  assert (G : exists s, Some (seen_of leaks (turn_at i p) (o_meta o)) = Some s
+    /\ sn_meta s = filter (fun kv => negb (is_fw (fst kv))) (o_meta o) /\ sn_leak s = false
+    /\ (leaks = false -> forall b, sn_batch s = Some b -> b = sn_meta s)).
+  { eexists. split; [reflexivity|]. unfold seen_of; cbn [sn_meta sn_batch sn_leak]. split; [reflexivity|]. split; [reflexivity|].
+    intros ->. destruct (t_peek (turn_at i p)); intros b H; now inversion H. }
+  destruct (act_ok (t_act (turn_at i p))) eqn:K.
+  - destruct (turn_ok_shape false (turn_at i p) (insum (o_body o)) K) as (fs & uc & E & _). rewrite E. proj. exact G.
+  - destruct (turn_err_shape (turn_at i p) (insum (o_body o)) K) as (ty & msg & E). rewrite E. proj. exact G.
 Qed.
 
 Lemma no_token_handler i minted o p s :
@@ -228,15 +312,24 @@ Lemma no_token_handler i minted o p s :
       no_token (sn_meta s) = true /\ (forall b, sn_batch s = Some b -> no_token b = true) /\ sn_leak s = false).
 Proof.
   intros A C. unfold handle. rewrite A, C.
-  assert (forall t, Some (seen_of false t (o_meta o)) = Some s ->
+  assert (forall s0, (s0 = seen_prod (strip (o_meta o)) \/ exists t, s0 = seen_of false t (o_meta o)) -> Some s0 = Some s ->
     (forall kv, In kv (sn_meta s) -> is_fw (fst kv) = false)
     /\ (tokens_proper (o_meta o) = true ->
         no_token (sn_meta s) = true /\ (forall b, sn_batch s = Some b -> no_token b = true) /\ sn_leak s = false)) as G.
-  { intros t H. inversion H; subst s; clear H. unfold seen_of; cbn [sn_meta sn_batch sn_leak]. split.
+  { intros s0 Hs H. inversion H; subst s; clear H.
+    assert (M : sn_meta s0 = strip (o_meta o)) by (destruct Hs as [->|[t ->]]; reflexivity).
+    assert (B : forall b, sn_batch s0 = Some b -> b = strip (o_meta o)).
+    { destruct Hs as [->|[t ->]]; cbn [seen_prod seen_of sn_batch]; [discriminate|]. destruct (t_peek t); intros b Hb; now inversion Hb. }
+    assert (K : sn_leak s0 = false) by (destruct Hs as [->|[t ->]]; reflexivity).
+    rewrite M. split.
     - intros kv Hin. now apply strip_in in Hin.
-    - intro T. split; [now apply no_token_strip|]. split; [|reflexivity].
-      destruct (t_peek t); intros b Hb; inversion Hb; subst. now apply no_token_strip. }
-  destruct (turn (turn_at i p) (insum (o_body o))); proj; apply G.
+    - intro T. split; [now apply no_token_strip|]. split; [|exact K]. intros b Hb. rewrite (B b Hb). now apply no_token_strip. }
+  destruct (i_prod i).
+  - destruct (produce_spec i minted p (seen_prod (strip (o_meta o))) [] false (strip (o_meta o))) as (_ & _ & _ & SN & _ & _).
+    rewrite SN. apply G. now left.
+  - destruct (act_ok (t_act (turn_at i p))) eqn:K.
+    + destruct (turn_ok_shape false (turn_at i p) (insum (o_body o)) K) as (fs & uc & E & _). rewrite E. proj. apply G. right. now eexists.
+    + destruct (turn_err_shape (turn_at i p) (insum (o_body o)) K) as (ty & msg & E). rewrite E. proj. apply G. right. now eexists.
 Qed.
 
 (* ---- following the returned cursors: s0, s1, s2, ... each exactly once ------------- *)
@@ -256,21 +349,21 @@ Fixpoint positions (p : N) (ops : list op) : list (option N) :=
 
 Lemma follows_gate i minted k o p : follows i k o -> nth_error minted k = Some p -> gate i minted o = VAccept p.
 Proof.
-  intros (G & C & K & CA) N. unfold gate. rewrite C, K, G; cbn [negb andb presented]. rewrite N.
+  intros (G & C & K & CA) N. unfold gate. rewrite C, K, G; cbn [negb andb presented]. rewrite Bool.andb_false_r, N.
   destruct CA as [CA|CA]; rewrite CA; [reflexivity|]. cbn [call_ok negb]. now rewrite Bool.andb_false_r.
 Qed.
 
-Lemma follow_run leaks i ops : forall pre p,
+Lemma follow_run leaks i ops : i_prod i = false -> forall pre p,
   follow_all i (length pre) ops -> all_ok i p (length ops) ->
   map r_trace (run leaks i (pre ++ [p]) ops) = visits p ops
   /\ map r_pos (run leaks i (pre ++ [p]) ops) = positions p ops.
 Proof.
-  induction ops as [|o ops IH]; intros pre p F A; cbn [run map visits positions]; [split; reflexivity|].
+  intro PR. induction ops as [|o ops IH]; intros pre p F A; cbn [run map visits positions]; [split; reflexivity|].
   destruct F as [F0 F]. destruct A as [A0 A].
   assert (AD : gate i (pre ++ [p]) o = VAccept p).
   { apply (follows_gate i _ (length pre) o p F0). rewrite nth_error_app2 by lia. now rewrite Nat.sub_diag. }
   destruct F0 as (_ & C & _ & _).
-  destruct (ok_turn leaks i (pre ++ [p]) o p AD C A0) as (_ & _ & _ & _ & _ & _ & M & _ & P & T).
+  destruct (ok_turn leaks i (pre ++ [p]) o p AD C PR A0) as (_ & _ & _ & _ & _ & _ & M & _ & P & T).
   destruct (handle leaks i (pre ++ [p]) o) as [r m'] eqn:H. cbn [fst snd] in M, P, T. subst m'.
   cbn [map]. rewrite T, P.
   specialize (IH (pre ++ [p]) (p + 1)). rewrite app_length in IH; cbn [length] in IH.
@@ -298,12 +391,12 @@ Section Tokens.
   Qed.
 
   Lemma ok_turn_token leaks i minted o p :
-    gate i minted o = VAccept p -> cancelled o = false -> act_ok (t_act (turn_at i p)) = true ->
+    gate i minted o = VAccept p -> cancelled o = false -> i_prod i = false -> act_ok (t_act (turn_at i p)) = true ->
     exists t, wire (snd (handle leaks i minted o)) (length minted) = Some t
       /\ open t = Some (p + 1)
       /\ (forall k t', wire minted k = Some t' -> t <> t').
   Proof.
-    intros A C K. destruct (ok_turn leaks i minted o p A C K) as (_ & _ & _ & _ & _ & _ & M & Nn & _ & _).
+    intros A C PR K. destruct (ok_turn leaks i minted o p A C PR K) as (_ & _ & _ & _ & _ & _ & M & Nn & _ & _).
     exists (seal (N.of_nat (length minted)) (p + 1)). unfold wire at 1. rewrite Nn. cbn [option_map].
     split; [reflexivity|]. split; [apply open_seal|]. intros k t' W. now apply fresh_token with (k := k).
   Qed.
@@ -311,11 +404,12 @@ End Tokens.
 
 (* ---- the code before fix 270d950 -------------------------------------------------- *)
 Definition legacy_witness : input :=
-  {| i_turns := [ {| t_logs := []; t_act := AEmit; t_value := 1; t_meta := []; t_peek := true |} ];
+  {| i_turns := [ {| t_logs := []; t_act := AEmit; t_value := 1; t_meta := []; t_peek := true; t_late := [] |} ];
      i_cancel := CNone; i_cache := true;
      i_ops := [ {| o_meta := [(str "a", VLit (str "1")); (c16_meta_stream_state, VCur 0);
                               (str "b", VLit (str "2")); (c16_meta_call_state, VCall)];
-                   o_body := BData [5%Z] |} ] |}.
+                   o_body := BData [5%Z] |} ];
+     i_prod := false |}.
 Lemma legacy_refuted : spec_ok legacy_witness (model_legacy legacy_witness) = false
   /\ exists r s b, nth_error (model_legacy legacy_witness) 1 = Some r /\ r_seen r = Some s /\ sn_batch s = Some b
        /\ In (c16_meta_stream_state, VCur 0) b /\ In (c16_meta_call_state, VCall) b.
@@ -327,9 +421,10 @@ Qed.
 (* first-match readers and a handler that emits metadata under the stream-state key *)
 Definition shadow_witness : input :=
   {| i_turns := [ {| t_logs := []; t_act := AEmit; t_value := 1;
-                     t_meta := [(c16_meta_stream_state, str "user-cursor")]; t_peek := false |} ];
+                     t_meta := [(c16_meta_stream_state, str "user-cursor")]; t_peek := false; t_late := [] |} ];
      i_cancel := CNone; i_cache := true;
-     i_ops := [ {| o_meta := [(c16_meta_stream_state, VCur 0); (c16_meta_call_state, VCall)]; o_body := BData [5%Z] |} ] |}.
+     i_ops := [ {| o_meta := [(c16_meta_stream_state, VCur 0); (c16_meta_call_state, VCall)]; o_body := BData [5%Z] |} ];
+     i_prod := false |}.
 Lemma shadow_example :
   exists r, nth_error (model shadow_witness) 1 = Some r
     /\ r_curs r = [[VLit (str "user-cursor"); VCur 1]] /\ r_first r = Some (VLit (str "user-cursor")).
@@ -344,3 +439,22 @@ Proof.
   - cbn [app head_nonempty]. destruct fresh as [b| |]; try reflexivity. destruct b; [congruence|reflexivity].
   - cbn [head_nonempty]. apply IH. destruct Hin as [->|Hin]; [congruence|exact Hin].
 Qed.
+
+(* a response in which the cursor rides a LOG batch raised after the Emit while the data batch has
+   none (what a collector that mis-indexes its data batch produces) is rejected by the decidable property *)
+Definition late_witness : input :=
+  {| i_turns := [ {| t_logs := []; t_act := AEmit; t_value := 1; t_meta := []; t_peek := false;
+                     t_late := [ C04.Build_logmsg (str "INFO") (str "after-emit") [] ] |} ];
+     i_cancel := CNone; i_cache := true;
+     i_ops := [ {| o_meta := [(c16_meta_stream_state, VCur 0); (c16_meta_call_state, VCall)]; o_body := BData [5%Z] |} ];
+     i_prod := false |}.
+Definition cursor_on_log (r : resp) : resp :=
+  {| r_status := r_status r; r_errhdr := r_errhdr r; r_schema := r_schema r;
+     r_frames := rev (r_frames r); r_curs := r_curs r; r_first := r_first r; r_hascall := r_hascall r;
+     r_pos := None; r_seen := r_seen r; r_trace := r_trace r; r_strip := r_strip r |}.
+Lemma late_log_example :
+  spec_ok late_witness (model late_witness) = true
+  /\ (exists r, nth_error (model late_witness) 1 = Some r
+        /\ r_frames r = [FData 1 [6%Z] []; FLog (str "INFO") (str "after-emit") [] []] /\ r_curs r = [[VCur 1]; []])
+  /\ spec_ok late_witness (match model late_witness with r0 :: r1 :: rest => r0 :: cursor_on_log r1 :: rest | l => l end) = false.
+Proof. split; [now vm_compute|]. split; [eexists; split; [reflexivity|split; reflexivity]|now vm_compute]. Qed.
